@@ -229,3 +229,64 @@ def decode_template(bs, with_args=False):
             next_arg += 1
     text = "".join(out)
     return (text, args) if with_args else text
+
+
+def chunker(facts):
+    """The YAML document chunker, located by shape: the crate-local Iterator whose `next` (with its
+    same-crate helpers) drives the libyaml parser. Returns {'next': Body, 'adt': path, 'sup': Super,
+    'bodies': [Body...], 'loop': Body owning the match over libyaml event types}."""
+
+    def build():
+        lib = facts.lib
+        found = []
+        for b in lib.bodies:
+            if b.raw.get("impl_trait") != "std::iter::Iterator" or b.name != "next":
+                continue
+            sup = Super(lib, b, depth=3)
+            if any((fn_of(t) or {}).get("crate") == "unsafe_libyaml" for _, _, t in sup.calls()):
+                found.append((b, sup))
+        if len(found) != 1:
+            raise AnchorLost(f"expected one Iterator driving the libyaml parser (the YAML chunker), found {len(found)}")
+        b, sup = found[0]
+        bodies = []
+        for n in sorted(sup.nodes(), key=str):
+            x = sup.body_of(n)
+            if x not in bodies:
+                bodies.append(x)
+        loop = None
+        for x in bodies:
+            for t in lib.tables_of(x.id):
+                if t["form"] != "match":
+                    continue
+                names = set()
+                for arm in t["arms"]:
+                    names |= _pat_paths(arm["pat"])
+                if any(n.endswith("YAML_DOCUMENT_END_EVENT") for n in names):
+                    loop = x
+        if loop is None:
+            raise AnchorLost("no match over libyaml event types (YAML_DOCUMENT_END_EVENT) in the chunker")
+        return {"next": b, "adt": b.raw.get("impl_self_adt"), "sup": sup, "bodies": bodies, "loop": loop}
+
+    return memo(facts, "chunker", build)
+
+
+def _pat_paths(pat):
+    k = pat.get("k")
+    if k == "or":
+        out = set()
+        for a in pat["alts"]:
+            out |= _pat_paths(a)
+        return out
+    if k == "path":
+        return {pat["res"]}
+    if k in ("ref", "box", "derefpat", "binding") and "sub" in pat:
+        return _pat_paths(pat["sub"])
+    return set()
+
+
+def is_chunker_next(facts, f):
+    """The callee `f` is Iterator::next of the chunker type."""
+    if not f or f.get("trait") != "std::iter::Iterator" or f.get("name") != "next":
+        return False
+    adt = chunker(facts)["adt"] or ""
+    return adt.rsplit("::", 1)[-1] in f.get("self_ty", "") or (f.get("resolved") or "") == chunker(facts)["next"].id
